@@ -85,15 +85,19 @@ func plan(thorough bool) []item {
 	for mask := uint32(1); mask < 1<<uint(n); mask++ {
 		for _, f := range formats {
 			for _, l := range layouts {
-				items = append(items, item{"copy", TableSpec{Mask: mask, Layout: l, Format: f}})
+				items = append(items, item{"copy", TableSpec{Mask: mask, Layout: l, Format: f, NoValBlk: true}})
 			}
 		}
 	}
 	full := uint32(1)<<uint(n) - 1
+	// Unsupported features (range tombstones, range keys, value blocks): whole-file copies.
 	for _, sp := range [][2]int{{1, 0}, {0, 1}, {2, 3}} {
 		for _, f := range formats {
-			items = append(items, item{"copy", TableSpec{Mask: full, RD: sp[0], RK: sp[1], Layout: 1, Format: f}})
+			items = append(items, item{"copy", TableSpec{Mask: full, RD: sp[0], RK: sp[1], Layout: 1, Format: f, NoValBlk: true}})
 		}
+	}
+	for _, f := range formats {
+		items = append(items, item{"copy", TableSpec{Mask: full, Layout: 1, Format: f}})
 	}
 	return items
 }
